@@ -5,15 +5,21 @@ import json, os, sys, re, glob
 ROOT = os.path.dirname(os.path.dirname(os.path.abspath(__file__)))
 rows = {}
 for f in sys.argv[1:]:
+    seen = set()
     for ln in open(f):
         m = re.match(r'(\S+) (C\d\d) (\w+) exit=(\d+) (\d+)s (\d+) violations', ln)
         if m:
+            if m.group(1) not in seen:  # a later file replaces what an earlier one said about a change
+                seen.add(m.group(1))
+                rows[m.group(1)] = []
             rows.setdefault(m.group(1), []).append(dict(check=m.group(2), tier=m.group(3), exit=int(m.group(4)), wall_s=int(m.group(5)), violations=int(m.group(6))))
 lines = ["# Seeded changes and the checks that catch them", "",
          "Every change was written by an independent sub-agent that saw only the property text and its own worktree; each was confirmed",
          "in a fresh worktree with tools/confirm_mutant.sh (demo passes on the clean tree, patch applies, the repository's tests keep",
          "their baseline result, demo fails with the patch) and then run against the check of its property with tools/matrix.sh",
-         "(VERIF_REPO pointing at a scratch worktree with the patch applied; /repo itself is never touched).", "",
+         "(VERIF_REPO pointing at a scratch worktree with the patch applied; /repo itself is never touched).",
+         "Rounds 1-4 were last run on the tree with the first four fix: commits (seeded/rounds1-4-matrix.txt); every change whose patch had to be",
+         "re-based after a later fix: commit, and all of rounds 5 and 6, were run again with the final checks on the final tree.", "",
          "| id | property | needs (from the author's meta.json, shortened) | check | exit | violations |", "|---|---|---|---|---|---|"]
 for d in sorted(glob.glob(os.path.join(ROOT, "seeded", "C*"))):
     sid = os.path.basename(d)
